@@ -89,7 +89,8 @@ func entAddr(code uint) []uint {
 	return append(entAddr(code/10), code%10)
 }
 
-var typeVars = map[string]model.FeatureTypeType{"lc": model.FeatureTypeTypeLoadControl, "ms": model.FeatureTypeTypeMeasurement, "nm": model.FeatureTypeTypeNodeManagement}
+var typeVars = map[string]model.FeatureTypeType{"lc": model.FeatureTypeTypeLoadControl, "ms": model.FeatureTypeTypeMeasurement, "nm": model.FeatureTypeTypeNodeManagement,
+	"gen": model.FeatureTypeTypeGeneric} // requested for features that are not Generic: not "the requested type"
 
 // ---------------------------------------------------------------- reference model
 
